@@ -168,8 +168,11 @@ type scenario struct {
 	Shadow bool `json:"shadow_session,omitempty"`
 	// Deadline: the connections go to a service that leaves a short write deadline behind after every write (and
 	// at the start); the deadline has passed when the end-of-stream messages (or the disconnect) arrive
-	Deadline bool   `json:"expired_write_deadline,omitempty"`
-	Kind     string `json:"kind"`
+	Deadline bool `json:"expired_write_deadline,omitempty"`
+	// SlowUDP: the datagrams go to a service that answers 40 ms late - after the next datagrams of other peers
+	// have arrived on the session
+	SlowUDP bool   `json:"slow_udp,omitempty"`
+	Kind    string `json:"kind"`
 }
 
 func interleavings(counts []int) [][]int {
@@ -317,6 +320,18 @@ func scenarios(tier string, seed int64) []scenario {
 		}
 		out = append(out, sc)
 	}
+	nu := 12
+	if tier == "thorough" {
+		nu = 100
+	}
+	for i := 0; i < nu; i++ {
+		r := core.NewRng(seed, "C16/slowudp", i)
+		sc := scenario{Conns: 0, Kind: "udp-late-replies", SlowUDP: true}
+		for c := r.Range(2, 4) - 1; c >= 0; c-- {
+			sc.Msgs = append(sc.Msgs, msg{c, "udp", r.PickI([]int{12, 40, 500})})
+		}
+		out = append(out, sc)
+	}
 	np := 12
 	if tier == "thorough" {
 		np = 150
@@ -388,6 +403,11 @@ func addrOfSc(sc scenario, k, c int, udp bool) (local, remote waddr) {
 	if sc.Deadline && !udp {
 		l.Port = 8026
 	}
+	if sc.SlowUDP && udp {
+		l.Port = 8054
+		r.Port = 31000 + c
+		r.IP = net.IPv4(100, 71, byte(k), byte(c+1))
+	}
 	if sc.SameRemote && !udp && c < 70 {
 		l.Port = 8022 + c
 		r.Port = 30000
@@ -441,11 +461,13 @@ func runScenario(k int, sc scenario, listen string, key []byte) scnObs {
 	}
 	// reader: collect frames coming back
 	type back struct {
-		data   map[string][]byte
-		eof    map[string]bool
-		udp    int
-		other  []string
-		closed bool
+		data map[string][]byte
+		eof  map[string]bool
+		udp  int
+		// udpFrames: (address pair, payload) of every datagram that came back
+		udpFrames [][2]string
+		other     []string
+		closed    bool
 	}
 	bk := &back{data: map[string][]byte{}, eof: map[string]bool{}}
 	var bmu sync.Mutex
@@ -471,6 +493,7 @@ func runScenario(k int, sc scenario, listen string, key []byte) scnObs {
 					bk.other = append(bk.other, fmt.Sprintf("undecodable frame type %d (%d bytes)", f.Typ, len(f.Body)))
 				} else if f.Typ == tRWUDP {
 					bk.udp++
+					bk.udpFrames = append(bk.udpFrames, [2]string{l.String() + "|" + r.String(), string(d)})
 				} else {
 					key := l.String() + "|" + r.String()
 					bk.data[key] = append(bk.data[key], d...)
@@ -499,6 +522,8 @@ func runScenario(k int, sc scenario, listen string, key []byte) scnObs {
 	eofSent := make([]bool, sc.Conns)
 	helloSent := make([]bool, sc.Conns)
 	expired := false
+	udpSeq := 0
+	sentUDP := map[string][]string{}
 	for _, m := range sc.Msgs {
 		switch m.Kind {
 		case "hello", "dup-hello":
@@ -564,7 +589,10 @@ func runScenario(k int, sc scenario, listen string, key []byte) scnObs {
 			a.send(tPing, nil)
 		case "udp":
 			l, r := addrOfSc(sc, k, m.Conn, true)
-			a.send(tRWUDP, encData(encAddr(encAddr(nil, l.Proto, l.IP, l.Port), r.Proto, r.IP, r.Port), stampPayload(k, 99, 0, m.Len)))
+			udpSeq++
+			pl := stampPayload(k, 90+m.Conn, udpSeq, m.Len)
+			sentUDP[l.String()+"|"+r.String()] = append(sentUDP[l.String()+"|"+r.String()], string(pl))
+			a.send(tRWUDP, encData(encAddr(encAddr(nil, l.Proto, l.IP, l.Port), r.Proto, r.IP, r.Port), pl))
 			if m.Len > 0 { // an empty datagram gives the echoing service nothing to send back
 				ob.UDPSent++
 			}
@@ -669,6 +697,26 @@ func runScenario(k int, sc scenario, listen string, key []byte) scnObs {
 			ob.Foreign = append(ob.Foreign, fmt.Sprintf("%d bytes came back tagged %s, which is no connection of this session", len(d), key))
 		}
 	}
+	// a datagram that comes back carries the addresses of the datagram it answers
+	for _, uf := range bk.udpFrames {
+		ok := false
+		for _, pl := range sentUDP[uf[0]] {
+			if pl == uf[1] {
+				ok = true
+			}
+		}
+		if !ok {
+			owner := "no datagram of this session"
+			for key, pls := range sentUDP {
+				for _, pl := range pls {
+					if pl == uf[1] {
+						owner = "the datagram sent for " + key
+					}
+				}
+			}
+			ob.Foreign = append(ob.Foreign, fmt.Sprintf("a %d-byte datagram came back tagged %s; its content answers %s", len(uf[1]), uf[0], owner))
+		}
+	}
 	ob.Foreign = append(ob.Foreign, bk.other...)
 	ob.UDPEcho = bk.udp
 	return ob
@@ -741,7 +789,7 @@ func (prop) Child(b core.Batch, o *core.Obs) {
 	}
 	port := freePort()
 	listen := fmt.Sprintf("127.0.0.1:%d", port)
-	cfg := fmt.Sprintf("[listener]\ntype=\"agent\"\nlisten=%q\n[channel.cap0]\ntype=\"lab-capture\"\nid=\"cap0\"\n[[filter]]\nchannel=[\"cap0\"]\n[service.echo]\ntype=\"lab-stub-plain\"\nname=\"echo\"\necho=true\n[service.echod]\ntype=\"lab-stub-plain\"\nname=\"echod\"\necho=true\nwrite_deadline_ms=5\n[[port]]\nport=\"tcp/8026\"\nservices=[\"echod\"]\n[[port]]\nports=[\"tcp/8022\",\"tcp/8023\",\"tcp/8024\",\"tcp/8025\"]\nservices=[\"echo\"]\n[[port]]\nport=\"udp/8053\"\nservices=[\"echo\"]\n", listen)
+	cfg := fmt.Sprintf("[listener]\ntype=\"agent\"\nlisten=%q\n[channel.cap0]\ntype=\"lab-capture\"\nid=\"cap0\"\n[[filter]]\nchannel=[\"cap0\"]\n[service.echo]\ntype=\"lab-stub-plain\"\nname=\"echo\"\necho=true\n[service.echod]\ntype=\"lab-stub-plain\"\nname=\"echod\"\necho=true\nwrite_deadline_ms=5\n[[port]]\nport=\"tcp/8026\"\nservices=[\"echod\"]\n[[port]]\nports=[\"tcp/8022\",\"tcp/8023\",\"tcp/8024\",\"tcp/8025\"]\nservices=[\"echo\"]\n[[port]]\nport=\"udp/8053\"\nservices=[\"echo\"]\n[service.echoslow]\ntype=\"lab-stub-plain\"\nname=\"echoslow\"\necho=true\nreply_delay_ms=40\n[[port]]\nport=\"udp/8054\"\nservices=[\"echoslow\"]\n", listen)
 	srv, err := lab.StartWith(cfg, false)
 	if err != nil {
 		o.Emit(core.Rec{T: "starterr", S: err.Error()})
